@@ -87,18 +87,11 @@ impl Probe {
     #[verifier::external_body]
     pub fn insert_record(&mut self, record: DnsRecordBox)
         ensures (exists|pos: int| 0 <= pos <= old(self).records@.len() && final(self).records@ == old(self).records@.insert(pos, record) && #[trigger] final(self).records@[pos] == record), final(self).waiting_services == old(self).waiting_services, final(self).start_time == old(self).start_time, final(self).next_send == old(self).next_send,
+            forall|i: int| 0 <= i < final(self).records@.len() ==> (#[trigger] final(self).records@[i]) == record || old(self).records@.contains(final(self).records@[i]),
     { unimplemented!() }
     #[verifier::external_body]
     pub fn new(start_time: u64) -> (r: Self)
         ensures r.records@.len() == 0, r.waiting_services@ == Set::<String>::empty(), r.start_time == start_time, r.next_send == start_time,
-    { unimplemented!() }
-}
-impl DnsRegistry {
-    // moves SRV records that target `original` to probes under their own names with the new target (nested retain closures;
-    // assumed): touches probing / active only
-    #[verifier::external_body]
-    pub fn update_hostname(&mut self, original: &str, new_name: &str, probe_time: u64) -> (r: bool)
-        ensures final(self).name_changes == old(self).name_changes, final(self).new_timers == old(self).new_timers,
     { unimplemented!() }
 }
 // `map.entry(k).or_insert_with(|| Probe::new(t))`
@@ -273,3 +266,62 @@ pub open spec fn moved(p0: Map<String, Probe>, names: Seq<String>, n: int, k: St
 pub open spec fn event_for(log: Seq<DaemonEvent>, from: int, r: DnsRecordBox, intf: Seq<char>) -> bool {
     exists|w: int| from <= w < log.len() && is_name_change(#[trigger] log[w], r, intf)
 }
+// ---- update_hostname ----
+pub uninterp spec fn payload_srv(p: int) -> Option<DnsSrv>;
+impl DnsRecordDyn {
+    // `record.any().downcast_ref::<DnsSrv>()` (dyn Any; assumed): the SRV record behind the box
+    #[verifier::external_body]
+    pub fn as_srv(&self) -> (r: Option<&DnsSrv>)
+        ensures r is Some <==> payload_srv(self.payload()) is Some, r is Some ==> *r->Some_0 == payload_srv(self.payload())->Some_0 && r->Some_0.record == self.rec(),
+    { unimplemented!() }
+}
+impl DnsSrv {
+    // derived Clone
+    #[verifier::external_body]
+    pub fn clone(&self) -> (r: Self) ensures r == *self { unimplemented!() }
+    // `Box::new(self)` behind the trait object
+    #[verifier::external_body]
+    pub fn boxed(self) -> (r: DnsRecordBox) ensures payload_srv(r.payload()) == Some(self), r.rec() == self.record { unimplemented!() }
+    #[verifier::external_body]
+    pub fn get_name(&self) -> (r: &str) ensures r@ == rec_name(self.record) { unimplemented!() }
+    #[verifier::external_body]
+    pub fn get_type(&self) -> (r: RRType) ensures r == self.record.entry.ty { unimplemented!() }
+}
+#[verifier::external_body]
+pub fn vx_str_eq(a: &str, b: &str) -> (r: bool) ensures r == (a@ == b@) { unimplemented!() }
+// an SRV record (of type SRV) whose target is the host that lost its name
+pub open spec fn targets_old(r: DnsRecordBox, original: Seq<char>) -> bool {
+    r.rec().entry.ty == RRType::SRV && payload_srv(r.payload()) is Some && payload_srv(r.payload())->Some_0.host@ == original
+}
+pub open spec fn keeps_target(original: Seq<char>) -> spec_fn(DnsRecordBox) -> bool { |r: DnsRecordBox| !targets_old(r, original) }
+// x is a copy of such a record with the new target
+pub open spec fn retargeted(x: DnsSrv, r: DnsRecordBox, new_name: Seq<char>) -> bool {
+    payload_srv(r.payload()) is Some && x == (DnsSrv { host: x.host, ..payload_srv(r.payload())->Some_0 }) && x.host@ == new_name
+}
+pub open spec fn found_from(x: DnsSrv, l: Seq<DnsRecordBox>, n: int, original: Seq<char>, new_name: Seq<char>) -> bool {
+    exists|i: int| 0 <= i < n && targets_old(#[trigger] l[i], original) && retargeted(x, l[i], new_name)
+}
+pub open spec fn clean_list(l: Seq<DnsRecordBox>, original: Seq<char>) -> bool { forall|i: int| 0 <= i < l.len() ==> !targets_old(#[trigger] l[i], original) }
+pub open spec fn clean_probes(m: Map<String, Probe>, original: Seq<char>) -> bool { forall|k: String| #[trigger] m.contains_key(k) ==> clean_list(m[k].records@, original) }
+pub proof fn lemma_filter_clean(l: Seq<DnsRecordBox>, original: Seq<char>)
+    ensures clean_list(l.filter(keeps_target(original)), original),
+    decreases l.len(),
+{
+    reveal_with_fuel(Seq::filter, 2);
+    if l.len() > 0 {
+        lemma_filter_clean(l.drop_last(), original);
+        let f = l.filter(keeps_target(original));
+        let fd = l.drop_last().filter(keeps_target(original));
+        assert(f == (if keeps_target(original)(l.last()) { fd.push(l.last()) } else { fd }));
+        assert forall|i: int| 0 <= i < f.len() implies !targets_old(#[trigger] f[i], original) by {
+            if i < fd.len() { assert(f[i] == fd[i]); } else { assert(f[i] == l.last()); }
+        }
+    }
+}
+// iteration order of the HashMap stand-in enumerates every key once (textbook; see cacheintf_env.rs)
+#[verifier::external_body]
+pub proof fn axiom_entries_wf_p(m: HashMap<String, Probe>)
+    ensures
+        forall|i: int| 0 <= i < m.entries().len() ==> m@.contains_key((#[trigger] m.entries()[i]).0) && m@[m.entries()[i].0] == m.entries()[i].1,
+        forall|k: String| m@.contains_key(k) ==> exists|i: int| 0 <= i < m.entries().len() && (#[trigger] m.entries()[i]).0 == k,
+{}
